@@ -74,7 +74,7 @@ fn cmp_frag(rep: &Report, acc: &mut Acc, p: usize, pos: usize, b: usize, out: &E
 
 pub fn run(tier: Tier) -> i32 {
     let rep = Report::new("C18", tier);
-    rep.set_rule("differential enumeration: encap_preview vs encap (fresh encapsulator and re-use disabled, so no substitution applies) over the complete (PDU length x buffer length x label incl. zero and explicit re-use x protocol type) lattice; encap_frag_preview vs encap_frag over (PDU length x context position x buffer length); thorough closes the PDU length completely (every length 0..=70000 against the buffer set) and the buffer length completely for the PDU set (every buffer 0..=70000), and adds all 65536 protocol types; distinct = (call, outcome pair, regime)");
+    rep.set_rule("differential enumeration: encap_preview vs encap (encapsulator fresh, re-use disabled, disabled after the same label, after another label, and at the consecutive-re-use limit: in all of them no substitution applies) over the complete (PDU length x buffer length x label incl. zero and explicit re-use x protocol type) lattice; encap_frag_preview vs encap_frag over (PDU length x context position x buffer length); thorough closes the PDU length completely (every length 0..=70000 against the buffer set) and the buffer length completely for the PDU set (every buffer 0..=70000), and adds all 65536 protocol types; distinct = (call, outcome pair, regime)");
     rep.assume("sizes between the enumerated windows are represented by the windows");
     let labels = [L6A, L3A, Lbl::Bcast, Lbl::ReUse, L6Z];
     let ps: Vec<usize> = if tier.thorough() { (0..=70000).collect() } else { p_set() };
@@ -91,8 +91,9 @@ pub fn run(tier: Tier) -> i32 {
         bl.extend(b_relative(p, l.wire_len(), 0));
         let bl = uniq(bl);
         let mut buf = vec![0xA5u8; *bl.last().unwrap()];
-        for prior in [Prior::Fresh, Prior::Disabled, Prior::SameThenDisabled, Prior::Other] {
-            if prior == Prior::SameThenDisabled && !l.is_addr() {
+        // SameAtMax: the label was just sent but the consecutive-re-use limit is reached, so no substitution applies
+        for prior in [Prior::Fresh, Prior::Disabled, Prior::SameThenDisabled, Prior::Other, Prior::SameAtMax] {
+            if matches!(prior, Prior::SameThenDisabled | Prior::SameAtMax) && !l.is_addr() {
                 continue;
             }
             let base = build_prior(FastCrc, prior, l);
